@@ -106,6 +106,15 @@ def run(ctx):
                 for cheb in (True, False):
                     cases.append({"fn": "gen", "name": name, "args": G.enc_args(a), "ensure_bounded": True, "return_scale": False,
                                   "chebyshev_basis": cheb, "max_scale": hexf(0.9), "timeout": 300, "directed": "lowest degrees, steep"})
+        # monomial (Taylor) mode near the top of its degree range with steep targets: the coefficients span many orders of magnitude and
+        # cancel on [-1,1], so anything done to them after the normalisation (chopping, rounding) shows up as a large maximum
+        for name, a in ((("sign", {"degree": 29, "delta": 8.0}), ("linamp", {"degree": 29, "gamma": 0.25, "kappa": 10}), ("sign", {"degree": 21, "delta": 16.0}),
+                         ("thresh", {"degree": 28, "delta": 8.0})) if quick else
+                        (("sign", {"degree": 29, "delta": 8.0}), ("sign", {"degree": 29, "delta": 16.0}), ("linamp", {"degree": 29, "gamma": 0.25, "kappa": 10}),
+                         ("sign", {"degree": 21, "delta": 16.0}), ("sign", {"degree": 25, "delta": 12.0}), ("thresh", {"degree": 28, "delta": 8.0}),
+                         ("gibbs", {"degree": 30, "beta": 4.0}), ("linamp", {"degree": 23, "gamma": 0.25, "kappa": 10}))):
+            cases.append({"fn": "gen", "name": name, "args": G.enc_args(a), "ensure_bounded": True, "return_scale": False,
+                          "chebyshev_basis": False, "max_scale": hexf(0.9), "timeout": 300, "directed": "monomial, high degree, steep"})
         # directed: tuples on which a local optimiser started at 0.1 can miss the largest lobe
         for name, a in (("sign", {"degree": 7, "delta": 10.0}), ("sign", {"degree": 17, "delta": 10.0}), ("phase_est", {"degree": 2, "delta": 0.5}),
                         ("thresh", {"degree": 18, "delta": 10.0}), ("efilter", {"degree": 6, "delta": 0.2})):
@@ -133,7 +142,9 @@ def run(ctx):
         else:
             bound = float.fromhex(c["max_scale"]) if "max_scale" in c else G.DEFAULT_MAX_SCALE[c["name"]]
         M = bound * (1 + 1e-3)
-        if not c["chebyshev_basis"] and len(cf) > 25:
+        if not c["chebyshev_basis"] and len(cf) > 25 and not (c["name"] in G.ERF and len(cf) <= 31):
+            # (the erf family normalises the very monomial polynomial it returns, so its bound is meaningful up to the Taylor mode's top degree 30;
+            #  cos / sin / 1/x are converted from a Chebyshev series and the rounded monomial coefficients denote another polynomial there)
             ctx.bucket("monomial output of degree > 24: outside the quantifier, skipped")
             continue
         if c.get("return_coef") is False:
